@@ -5,16 +5,29 @@ import itertools
 
 from bv.common import Property, Failure, InfraError, CaseTimeout, time_limit, exc_name
 
-DEFAULT = 'DFLT'          # the `default` argument handed to pop()/peek()
+# the `default` objects handed to pop()/peek(): op ['P', i, kw] / ['K', i, kw] passes DEFAULTS[i], positionally
+# (kw=0) or as default=... (kw=1); ['P'] / ['K'] = DEFAULTS[0] positionally.  Falsy values and None matter: "return
+# the GIVEN default" must not depend on what the object is.  None of them is == to any task object (see
+# TASK_FORMS), so an observed return value is attributed to "the default" by identity first.
+DEFAULTS = ['DFLT', None, 0, False, '', (), 0.0, 'k999999', 'default', [], {}, frozenset()]
+
+
+def default_of(op):
+    return DEFAULTS[op[1] % len(DEFAULTS)] if len(op) > 1 else DEFAULTS[0]
+
+
+def default_idx(op):
+    return op[1] % len(DEFAULTS) if len(op) > 1 else 0
+
 
 # task id -> the hashable objects standing for it (all == and hash-equal within one id)
 TASK_FORMS = {
     0: [1, 1.0, True],
     1: ['a'],
     2: [('x', 2)],
-    3: [0, 0.0, False],
+    3: [2, 2.0],
     4: [frozenset([4])],
-    5: [None],
+    5: [('n',)],
     6: [b'six'],
     7: [-7, -7.0],
 }
@@ -36,7 +49,7 @@ def task_id(obj):
     """inverse of task_obj (by ==/hash); None if the object is not a task we handed in"""
     try:
         if obj in _TASK_ID:
-            # 1 / True / 1.0 and 0 / False / 0.0 collapse by hash; frozenset/None/bytes are distinct keys
+            # 1 / True / 1.0 and 2 / 2.0 collapse by hash; the other forms are distinct keys
             return _TASK_ID[obj]
     except TypeError:
         return None
@@ -58,7 +71,7 @@ class C10(Property):
     PID = 'C10'
     QUICK_BUDGET_S = 38
     THOROUGH_BUDGET_S = 600
-    RULE = ('a case is one whole history. kind Q: add/re-add/remove/pop/peek/len (with and without default) run on '
+    RULE = ('a case is one whole history. kind Q: add/re-add/remove/pop/peek/len (without default and with each of 12 default objects incl. None, 0, False, '', (), [] - positional and by keyword) run on '
             'SortedPriorityQueue and HeapPriorityQueue with BarrelList._size_factor set to sf (1,2,3,4,6 force many '
             'sub-lists at small sizes; 1520 = shipped value), every return value / exception class recorded, most '
             'histories end with a full drain. kind B: BarrelList driven directly with the calls the sorted queue makes '
@@ -111,7 +124,7 @@ class C10(Property):
             yield self.random_q(rng, big=rng.random() < 0.15)
             yield self.random_b(rng)
 
-    DRAIN = [['P'], ['P'], ['P'], ['P'], ['n']]
+    DRAIN = [['P'], ['P', 3, 1], ['P', 2, 0], ['K', 1, 1], ['P', 1, 0], ['n']]
 
     def exhaustive_q(self, L):
         alpha = [['a', t, p] for t in (0, 1) for p in (0, 1)] + [['r', 0], ['r', 1], ['p'], ['k'], ['n']]
@@ -201,14 +214,22 @@ class C10(Property):
                     op.append(rng.randrange(3))
                 ops.append(op)
             elif r < w_add + w_readd + w_rem + w_pop:
-                ops.append([rng.choice('pP')])
+                ops.append(self._take(rng, 'p'))
             elif r < w_add + w_readd + w_rem + w_pop + w_peek:
-                ops.append([rng.choice('kK')])
+                ops.append(self._take(rng, 'k'))
             else:
                 ops.append(['n'])
         if rng.random() < 0.8:
-            ops += [['P']] * (len(set(maybe_live)) + 1) + [['n']]
+            ops += [self._take(rng, 'p', 1.0) for _ in range(len(set(maybe_live)) + 1)]
+            ops += [self._take(rng, 'k', 1.0), self._take(rng, 'p', 1.0), ['n']]
         return {'k': 'Q', 'sf': sf, 'ops': ops}
+
+    @staticmethod
+    def _take(rng, kind, p_default=0.5):
+        """pop/peek op: without default, or with a random default object, positional or keyword"""
+        if rng.random() >= p_default:
+            return [kind]
+        return [kind.upper(), rng.randrange(len(DEFAULTS)), rng.randrange(2)]
 
     @staticmethod
     def _add(ops, rng, t, pool):
@@ -222,7 +243,7 @@ class C10(Property):
         sizes = [5, 9, 14, 30] if small else [60, 150, 400]
         for n in sizes:
             for sf in ((1, 2, 4) if small else (1, 4, 6)):
-                drain = [['p']] * n + [['P'], ['n']]
+                drain = [['p']] * n + [['P', n % len(DEFAULTS), n % 2], ['K', 1, 1], ['P', 1, 0], ['n']]
                 # ascending effective order: every insort lands at the very end of the backend
                 yield {'k': 'Q', 'sf': sf, 'ops': [['a', 10 + i, -i] for i in range(n)] + drain}
                 # all equal: FIFO only, every insort at the very end as well
@@ -274,7 +295,7 @@ class C10(Property):
             for i in range(0, n, 11):
                 ops.append(['a', 10 + i, rng.choice([0, 1, -n // 4])])
             ops.append(['n'])
-            ops += [['p']] * n + [['P'], ['n']]
+            ops += [['p']] * n + [['P'], ['K', 1, 0], ['P', 1, 1], ['n']]
             yield {'k': 'Q', 'sf': sf, 'ops': ops}
 
     # ------------------------------------------------------------------ model line
@@ -309,8 +330,10 @@ class C10(Property):
                 toks.append('a%d:%d' % (op[1], ranks[eff(op[2])]))
             elif op[0] == 'r':
                 toks.append('r%d' % op[1])
-            elif op[0] in ('p', 'P', 'k', 'K', 'n'):
+            elif op[0] in ('p', 'k', 'n'):
                 toks.append(op[0])
+            elif op[0] in ('P', 'K'):
+                toks.append('%s%d' % (op[0], default_idx(op)))
             else:
                 raise InfraError('unknown Q op %r' % (op,))
         return ' '.join(toks)
@@ -406,12 +429,16 @@ class C10(Property):
                                 out.append('-' if r is None else '?%r' % (r,))
                             elif kind in 'pPkK':
                                 f = q.pop if kind in 'pP' else q.peek
-                                r = f(DEFAULT) if kind in 'PK' else f()
-                                if type(r) is str and r == DEFAULT:
-                                    out.append('d')
+                                if kind in 'PK':
+                                    d = default_of(op)
+                                    r = f(default=d) if len(op) > 2 and op[2] else f(d)
+                                    if r is d:
+                                        out.append('d%d' % default_idx(op))
+                                        continue
                                 else:
-                                    t = task_id(r)
-                                    out.append('t%d' % t if t is not None else '?%r' % (r,))
+                                    r = f()
+                                t = task_id(r)
+                                out.append('t%d' % t if t is not None else '?%r' % (r,))
                             elif kind == 'n':
                                 r = len(q)
                                 out.append('n%d' % r if type(r) is int else '?%r' % (r,))
@@ -508,7 +535,7 @@ class C10(Property):
                     tag = 'remove'
                 elif kind in 'pPkK':
                     if not live:
-                        want = 'd' if kind in 'PK' else 'IndexError'
+                        want = 'd%d' % default_idx(op) if kind in 'PK' else 'IndexError'
                         tag = 'empty'
                     else:
                         t = order[0][2]
@@ -543,8 +570,11 @@ class C10(Property):
         st['Q_ops'] = st.get('Q_ops', 0) + len(ops)
         for op in ops:
             st['op_' + op[0]] = st.get('op_' + op[0], 0) + 1
+            if op[0] in 'PK':
+                dk = 'default_%r_%s' % (default_of(op), 'kw' if len(op) > 2 and op[2] else 'pos')
+                st[dk] = st.get(dk, 0) + 1
         for g in obs['S']:
-            k = g if g in ('KeyError', 'IndexError', 'd') else None
+            k = g if g in ('KeyError', 'IndexError') else ('d' if g[:1] == 'd' else None)
             if k:
                 st['out_' + k] = st.get('out_' + k, 0) + 1
         multi = obs.get('lists_at_end', 1) >= 2
